@@ -87,7 +87,15 @@ class JaqalLexer(Lexer):
         return token
 
     def INT(self, token):
-        token.value = int(token.value)
+        try:
+            token.value = int(token.value)
+        except ValueError as exc:
+            # Python refuses to convert integer literals beyond
+            # sys.get_int_max_str_digits() digits.
+            column = token.index - self.text.rfind("\n", 0, token.index)
+            raise JaqalParseError(
+                "<string>", self.lineno, column, "Integer literal too large"
+            ) from exc
         return token
 
     def NUMBER(self, token):
